@@ -65,7 +65,9 @@ def strategy():
                 # still has to be out before the image is replaced -- also when stdout is a terminal
                 "fullbuf": draw(st.sampled_from([False, False, True])),
                 # the calling process has a 7-digit pid (pid namespaces of large hosts; pid_max up to 4194304)
-                "bigpid": draw(st.sampled_from([0, 0, 0, 0, 0, 1234567, 4194303]))}
+                "bigpid": draw(st.sampled_from([0, 0, 0, 0, 0, 1234567, 4194303])),
+                # a launcher: every one of the `repeat` calls is made in a vfork() child of the same process (shared memory, no fork handlers)
+                "launcher": (not real) and draw(st.sampled_from([False, False, False, True]))}
     return case()
 
 
@@ -160,8 +162,12 @@ def evaluate(env, c):
             drv.op("W", "log", out + "/log"), drv.op("W", "logtpl", out + "/log-x-1"),
             drv.op("C", p["ini"]), drv.op_env(p["environ"]), drv.op("Q")]
     k = c.get("repeat", 1)
+    launcher = c.get("launcher") and not c["real"]
+    if launcher:
+        k = max(k, 2) + 1
+        ops += [drv.op("v", k), drv.op_exec("e", path, p["argv"], [b"E=1"], ret=-1, err=13)]
     # the same exec k times in one process (a program walking its PATH): k records are due
-    for i in range(k):
+    for i in range(0 if launcher else k):
         ops.append(drv.op_exec("e" if i % 2 == 0 else "v", path, p["argv"], [b"E=1"], ret=-1, err=13,
                                real=c["real"] and i == k - 1))
     ops.append(drv.op("G"))
@@ -173,6 +179,12 @@ def evaluate(env, c):
     if len(R) != k:
         raise Failure("real exec reached %d times for %d calls" % (len(R), k), {"result": res.describe()}, key="count")
     pid = int(res.of("Q")[0].f[2].split()[0])
+    pids = [pid] * k
+    if launcher:
+        V = res.of("v")
+        if len(V) != k or any(int(e.f[1]) != 0 for e in V):
+            raise Failure("a vfork() child making the call did not end normally", {"children": [(int(e.f[0]), int(e.f[1])) for e in V]}, key="crash")
+        pids = [int(e.f[0]) for e in V]
     G = res.of("G")
     entry_dump = None
     if c["real"]:
@@ -222,7 +234,7 @@ def evaluate(env, c):
         elif sink == "devlog":
             fac = gen.FACILITY_NUM[c["fac"] or "AUTHPRIV"]
             lvl = gen.LEVEL_NUM[c["lvl"] or "INFO"]
-            expect[sink] = [b"<%d>%s[%d]: %s" % ((fac << 3) | lvl, p["ident"][:255], pid, msg)] * k
+            expect[sink] = [b"<%d>%s[%d]: %s" % ((fac << 3) | lvl, p["ident"][:255], pid_i, msg) for pid_i in pids]
         else:
             expect[sink] = (msg + b"\n") * k
     observed = {name: content for name, (typ, fd, content) in final.items()}
@@ -230,14 +242,14 @@ def evaluate(env, c):
         # normalise: any ident of at most 255 bytes is acceptable here
         norm = []
         for dgm in observed.get("devlog") or []:
-            m = re.match(rb"^(<\d+>)(.{0,255}?)(\[%d\]: )" % pid, dgm, re.S)
+            m = re.match(rb"^(<\d+>)(.{0,255}?)(\[(?:%s)\]: )" % b"|".join(b"%d" % x for x in sorted(set(pids))), dgm, re.S)
             norm.append(m.group(1) + p["ident"][:255] + dgm[m.end(2):] if m else dgm)
         observed["devlog"] = norm
     if c["errlog"]:
         # additional separate error records are tolerated at any sink; the real record must still be there
         if logged and sink:
             got = observed[sink]
-            ok = (got.count(expect[sink][0]) >= k) if isinstance(got, list) else (got is not None and got.count(msg + b"\n") >= k)
+            ok = all(got.count(x) >= expect[sink].count(x) for x in expect[sink]) if isinstance(got, list) else (got is not None and got.count(msg + b"\n") >= k)
             if not ok:
                 raise Failure("record missing/altered at the configured sink (error_logging on)",
                               summarize(observed), summarize(expect), key="record-errlog")
@@ -274,7 +286,7 @@ def classify(c):
         c["n"] > 1024 or binary or c["out"] == "filetpl" or nondef_syslog)
     key = (c["out"], sizecls, c["chain"], c["stdio"], c["real"], binary, c.get("repeat", 1)) if nontriv else None
     cls = ["out:" + c["out"], "size:" + sizecls, "chain:" + c["chain"], "stdio:" + c["stdio"],
-           "real" if c["real"] else "scripted", "repeat:%d" % c.get("repeat", 1)] + (["stdout-fully-buffered-by-caller"] if c.get("fullbuf") else []) + (["pid:7-digits"] if c.get("bigpid") else [])
+           "real" if c["real"] else "scripted", "repeat:%d" % c.get("repeat", 1)] + (["stdout-fully-buffered-by-caller"] if c.get("fullbuf") else []) + (["pid:7-digits"] if c.get("bigpid") else []) + (["calls-made-in-vfork-children-of-one-launcher"] if c.get("launcher") and not c["real"] else [])
     if c["errlog"]:
         cls.append("error_logging")
     if binary:
